@@ -40,21 +40,23 @@ from vf.core import Discard, Violation, as_violation, case_hash, drive, exc_kind
 ID = "C21"
 LEVEL = "fault_enumeration"
 SHARDS = {"quick": 16, "thorough": 16}
-SOFT_BUDGET_S = {"quick": 110, "thorough": 3000}
+SOFT_BUDGET_S = {"quick": 80, "thorough": 1500}
 
 RULE = (
     "case = (pool model, mode cache|codegen, fault kind, crash point).  truncate: the complete "
     "cache file is cut at offset n and given an mtime newer than the source so that the reader "
     "really unpickles it; quick sweeps EVERY offset 0..len of 2 pool models (offsets n with "
     "n % shards == shard) and ~1200 Hypothesis-drawn offsets of the other 6, thorough sweeps "
-    "every offset of all 8; the pickle frame headers/ends, the start/end of every payload "
+    "every offset of the 7 small models and every 8th offset of Big (160 kB cache, 4 write "
+    "calls); the pickle frame headers/ends, the write-call boundaries, the start/end of every payload "
     "> 256 bytes (the serialised CasADi functions), the first 16 and last 4 offsets of every "
     "model are always included.  write_crash: every write() call k of pickle.dump raises "
     "(k=1: file opened, nothing written), with and without a short write of half the chunk.  "
     "interleave: every (pa, pb): writer paused after pa = 0..W of its W writes, reader runs to "
     "completion (pb=-1) or is itself paused after pb = 0..W writes of its re-save while the "
-    "first writer finishes.  codegen: libraries present, cache missing / cut at a drawn "
-    "permille / write crashed.  After each fault: next call must not raise and must equal the "
+    "first writer finishes.  codegen (8 cases per quick run, spread over kind x model x "
+    "position; 16 + 160 drawn in thorough): libraries present, cache missing / cut at a permille "
+    "of its length / write crashed / writer paused before its first write.  After each fault: next call must not raise and must equal the "
     "uncached compile, the call after that must be a CachedModel and equal.  Equality = "
     "vf.canon.compare_models (names, order, types, outputs, alias relation, attributes at "
     "drawn parameter values, four functions at 3 drawn points) for the always-included "
@@ -90,6 +92,7 @@ WAIT_S = 300.0
 # model pool
 # --------------------------------------------------------------------------
 BIG_N = 100
+BIG_STRIDE = 8  # thorough sweep of Big's 160 kB cache: every 8th offset (a recompile of Big costs ~0.1 s)
 
 POOL = {
     "Decay": (
@@ -395,11 +398,13 @@ class World:
             raise RuntimeError("C21 harness: complete cache of %s is not hit" % name)
         canon.compare_models(ref, m1, 1, "%s: clean cache hit vs reference" % name)
         self.drop(d)
-        # is the written file a function of the source only?
-        d2 = self.folder(name)
-        self.api.transfer_model(str(d2), name, options(name, "cache"))
-        same = self.cache_file(d2, name).read_bytes() == data
-        self.drop(d2)
+        # is the written file a function of the source only?  (reported by shard 0)
+        same = None
+        if self.ctx.shard == 0:
+            d2 = self.folder(name)
+            self.api.transfer_model(str(d2), name, options(name, "cache"))
+            same = self.cache_file(d2, name).read_bytes() == data
+            self.drop(d2)
         info = dict(bytes=data, writes=list(plan.writes), deterministic=same, interesting=interesting_offsets(data, plan.writes))
         self.info[name] = info
         return info
@@ -436,7 +441,7 @@ def world(ctx):
 # --------------------------------------------------------------------------
 # oracle
 # --------------------------------------------------------------------------
-def call(w, d, name, opts, where):
+def call(w, d, name, opts, where, what=""):
     """transfer_model after the fault: any exception is a failure."""
     w.ctx.extra["transfer_model_calls_after_fault"] += 1
     try:
@@ -444,7 +449,7 @@ def call(w, d, name, opts, where):
     except HarnessTimeout:
         raise
     except Exception as e:  # noqa: BLE001 - 'instead of raising'
-        raise Violation(exc_kind(e, where), "%s: %s" % (type(e).__name__, str(e)[:300]))
+        raise Violation(exc_kind(e, where), "%s: transfer_model raised %s: %s" % (what, type(e).__name__, str(e)[:300]))
 
 
 def same_model(w, ref, got, seed, where, what, full):
@@ -472,9 +477,9 @@ def judge_after_fault(w, d, name, mode, fault, seed, full, what):
     """The statement's consequent: next call correct, then a valid cache hit."""
     ref = w.ref(name, mode)
     opts = options(name, mode)
-    m1 = call(w, d, name, opts, fault + ".next")
+    m1 = call(w, d, name, opts, fault + ".next", what)
     same_model(w, ref, m1, seed, fault + ".next", what + " (next call)", full)
-    m2 = call(w, d, name, opts, fault + ".followup")
+    m2 = call(w, d, name, opts, fault + ".followup", what + ", second call after the fault")
     if not isinstance(m2, w.api.CachedModel):
         raise Violation(
             "%s.followup:not_a_cache_hit" % fault,
@@ -615,8 +620,6 @@ def check_interleave(w, case):
                 raise t.exc
         what = "%s %s: writer paused after %d write(s) (%d bytes visible), reader %s" % (
             name, mode, pa, seen, "ran to completion" if pb < 0 else "paused after %d write(s) of its own" % pb)
-        if plan_a.opened != 1:
-            raise RuntimeError("C21 harness: writer did not open the cache file exactly once (%d)" % plan_a.opened)
         for who, t in (("reader", b), ("writer", a)):
             if t.exc is not None:
                 raise Violation(exc_kind(t.exc, "interleave." + who), "%s: %s: %s" % (what, type(t.exc).__name__, str(t.exc)[:300]))
@@ -630,6 +633,8 @@ def check_interleave(w, case):
     labels = ["interleave", "interleave:reader_%s" % ("completes" if pb < 0 else "paused")]
     if plan_b.opened:
         labels.append("interleave:reader_rewrote_cache")
+    if plan_a.opened != 1 or sa != "paused":
+        labels.append("interleave:writer_not_paused_in_write")
     if isinstance(b.result, w.api.CachedModel):
         labels.append("interleave:reader_hit_cache")
     return dict(nontrivial=nt, labels=labels, sample=dict(case, bytes_visible_to_reader=seen, cache_len=total))
@@ -694,6 +699,10 @@ def mine(ctx, seq, salt=0):
 
 
 def shard(ctx):
+    _T=[time.time()]
+    def lap(k):
+        ctx.extra['t_ms:'+k]+=int(1000*(time.time()-_T[0])); _T[0]=time.time()
+    ctx.extra['t_ms:startup']+=int(1000*(time.time()-ctx.t0))
     w = world(ctx)
     infos = {name: w.prepare(name) for name in NAMES}
     for name in NAMES:
@@ -702,6 +711,15 @@ def shard(ctx):
             ctx.extra["write_calls:" + name] = len(infos[name]["writes"])
             ctx.extra["cache_bytes_reproducible:" + name] = int(infos[name]["deterministic"])
 
+    lap('prepare')
+    # 0. frame / payload / write boundaries of every model
+    special = []
+    for name in NAMES:
+        for n in infos[name]["interesting"]:
+            special.append({"model": name, "mode": "cache", "fault": "truncate", "n": n, "full": True})
+    run_list(ctx, mine(ctx, special, salt=ctx.seed + 11))
+
+    lap('special')
     # 1. every write() call of every model crashes (with/without a short write)
     crash = []
     for name in NAMES:
@@ -713,6 +731,7 @@ def shard(ctx):
                 crash.append({"model": name, "mode": "cache", "fault": "write_crash", "k": k, "partial": partial})
     run_list(ctx, mine(ctx, crash, salt=ctx.seed))
 
+    lap('crash')
     # 2. every reader/writer schedule at write-call granularity
     sched = []
     for name in NAMES:
@@ -722,31 +741,40 @@ def shard(ctx):
                 sched.append({"model": name, "mode": "cache", "fault": "interleave", "pa": pa, "pb": pb})
     run_list(ctx, mine(ctx, sched, salt=ctx.seed + 5))
 
-    # 3. one codegen case per shard in quick (gcc: ~1 s per compile)
-    codegen = st.one_of(
-        st.fixed_dictionaries({"model": st.sampled_from(CODEGEN_MODELS), "mode": st.just("codegen"), "fault": st.just("truncate"),
-                               "permille": st.integers(0, 999)}),
-        st.fixed_dictionaries({"model": st.sampled_from(CODEGEN_MODELS), "mode": st.just("codegen"), "fault": st.just("missing")}),
-        st.fixed_dictionaries({"model": st.sampled_from(CODEGEN_MODELS), "mode": st.just("codegen"), "fault": st.just("write_crash"),
-                               "k": st.just(1), "partial": st.booleans()}),
-    )
+    lap('interleave')
+    # 3. codegen (gcc: 1-3 s CPU per compile, two compiles per case): one case on every second
+    #    shard in quick, on every shard in thorough, spread deterministically over
+    #    fault kind x model x cut position (a single Hypothesis draw per shard would be the
+    #    minimal example in all 16 of them); thorough adds drawn cases
+    kinds = ["truncate", "missing", "write_crash", "truncate"]
+    i = ctx.shard // 2 + ctx.seed if ctx.tier == "quick" else ctx.shard + ctx.seed
     if ctx.shard == ctx.seed % ctx.nshards:
-        run_one(ctx, check_case, {"model": "Decay", "mode": "codegen", "fault": "interleave", "pa": 0, "pb": -1})
+        case = {"model": "Decay", "mode": "codegen", "fault": "interleave", "pa": 0, "pb": -1}
     else:
-        drive(ctx, codegen, check_case, ctx.share(16, 160))
+        case = {"model": CODEGEN_MODELS[(i // len(kinds)) % len(CODEGEN_MODELS)], "mode": "codegen", "fault": kinds[i % len(kinds)]}
+        if case["fault"] == "truncate":
+            case["permille"] = (ctx.shard * 1000 // ctx.nshards + 37 * ctx.seed) % 1000
+        elif case["fault"] == "write_crash":
+            case.update(k=1, partial=bool((i // len(kinds)) % 2))
+    if (ctx.tier != "quick" or ctx.shard % 2 == ctx.seed % 2) and not ctx.over_budget():
+        run_one(ctx, check_case, case)
+    if ctx.tier != "quick":
+        codegen = st.one_of(
+            st.fixed_dictionaries({"model": st.sampled_from(CODEGEN_MODELS), "mode": st.just("codegen"), "fault": st.just("truncate"),
+                                   "permille": st.integers(0, 999)}),
+            st.fixed_dictionaries({"model": st.sampled_from(CODEGEN_MODELS), "mode": st.just("codegen"), "fault": st.just("missing")}),
+            st.fixed_dictionaries({"model": st.sampled_from(CODEGEN_MODELS), "mode": st.just("codegen"), "fault": st.just("write_crash"),
+                                   "k": st.just(1), "partial": st.booleans()}),
+        )
+        drive(ctx, codegen, check_case, ctx.share(0, 160))
 
-    # 4. frame / payload / write boundaries of every model
-    special = []
-    for name in NAMES:
-        for n in infos[name]["interesting"]:
-            special.append({"model": name, "mode": "cache", "fault": "truncate", "n": n, "full": True})
-    run_list(ctx, mine(ctx, special, salt=ctx.seed + 11))
-
-    # 5. every byte offset
+    lap('codegen')
+    # 4. every byte offset
     swept = EXHAUSTIVE_QUICK if ctx.tier == "quick" else NAMES
     for name in swept:
         total = len(infos[name]["bytes"])
-        todo = [n for n in range(0, total + 1) if n % ctx.nshards == ctx.shard]
+        stride = BIG_STRIDE if name == "Big" else 1
+        todo = [n for n in range(0, total + 1, stride) if (n // stride) % ctx.nshards == ctx.shard]
         for i, n in enumerate(todo):
             if ctx.over_budget():
                 ctx.out_of_budget += len(todo) - i - 1
@@ -754,7 +782,8 @@ def shard(ctx):
             if run_one(ctx, check_case, {"model": name, "mode": "cache", "fault": "truncate", "n": n, "full": False}):
                 ctx.extra["swept_offsets:" + name] += 1
 
-    # 6. drawn offsets of the models that are not swept
+    lap('sweep')
+    # 5. drawn offsets of the models that are not swept
     rest = [n for n in NAMES if n not in swept]
     if rest:
         strat = st.sampled_from(rest).flatmap(
@@ -782,8 +811,9 @@ def coverage_extra(tier, cov):
 MANIFEST = dict(
     text="Fault enumeration of the cache write: the cache file of small models (parameter-dependent "
     "attributes, array parameter, alias pair, delay, String parameter, a 100-element array model whose "
-    "pickle is written in several chunks) is cut at every byte offset (2 models in quick, all 8 in "
-    "thorough, drawn offsets and all pickle frame/payload boundaries for the rest), every write() call "
+    "pickle is written in several chunks) is cut at every byte offset (2 models in quick; in thorough all "
+    "7 small ones and every 8th offset of the large one; drawn offsets and all pickle frame/payload/"
+    "write boundaries for the rest), every write() call "
     "of pickle.dump is made to fail through a wrapped api.open, and every writer/reader schedule at "
     "write-call granularity is played with harness-owned threads; codegen mode adds 'libraries there, "
     "cache file missing/cut'.  After every fault the next transfer_model must return a model equal to an "
